@@ -352,4 +352,51 @@ def check(run, rule):
         good("Point order = by y, then by x", p[0]) if ok else bad("Point::cmp", p[0], expr_str(e)[:140])
     else:
         bad("Point::cmp", None, "impl not found")
+    ok_all = table_construction(run, rule) and ok_all
+    return ok_all
+
+
+def table_construction(run, rule):
+    """the character tables are exactly their literal lists (see check); usable on its own: C04 relies on
+    `Property::from_char(c).ch == c` because the text fallback of a property character shows `property.ch`"""
+    prog = run.prog
+    ok_all = True
+
+    def good(name, p, note=""):
+        run.ok(rule, "model conformance: " + name, where(prog.bodies[p]) if p else None, note, nontrivial=True)
+
+    def bad(name, p, msg):
+        nonlocal ok_all
+        ok_all = False
+        run.bad(rule, "model-mismatch/%s" % name, where(prog.bodies[p]) if p in prog.bodies else None,
+                "the table evaluator's model of %s no longer matches the code: %s" % (name, msg))
+
+    # the tables are exactly their literal lists: one `insert(ch, Property::..(ch, ..))` per listed entry, key == the
+    # character stored in the property (Property::from_char(c).ch == c), and no other way into the map
+    for static, owner in (("map::ascii_map::ASCII_PROPERTIES", "Property::new"), ("map::unicode_map::UNICODE_PROPERTIES", "Property::with_strong_fragments")):
+        init = [q for q in prog.bodies if re.search(re.escape(static) + r"::\{closure#0\}(::\{closure#\d+\})*$", q)]
+        if not init:
+            bad(static.split("::")[-1], None, "initialiser not found")
+            continue
+        muts = []
+        for q in init:
+            qex = None
+            for bid, t in prog.calls(q):
+                n = Program.callee_name(t)
+                if re.search(r"(BTreeMap|HashMap|IndexMap)(::)?<[^>]*>::(insert|extend|append|entry|remove|retain|get_mut|iter_mut|values_mut|insert_full|swap_remove|shift_remove|clear|get_or_insert_with|try_insert)$", n) or \
+                        (re.search(r"Extend<.*>>::extend$", n) and re.search(r"Map", n)):
+                    qex = qex or Expr(prog, q)
+                    muts.append((q, t, qex))
+        root = [q for q in init if q.endswith(static + "::{closure#0}")][0]
+        ins = [(q, t, qex) for q, t, qex in muts if Program.callee_name(t).endswith("::insert")]
+        if len(muts) != 1 or len(ins) != 1 or len(ins[0][1]["args"]) != 3:
+            bad(static.split("::")[-1], root, "the map is written by %d calls (%s), expected exactly one insert per listed entry" % (len(muts), sorted({Program.callee_name(t).split("::")[-1] for _, t, _ in muts})))
+            continue
+        q, t, qex = ins[0]
+        key = strip(qex.operand(t["args"][1]))
+        val = strip(qex.operand(t["args"][2]))
+        if val[0] == "call" and val[1].endswith(owner) and val[2] and strip(val[2][0]) == key and mentions(key, lambda z: (z[0] == "call" and z[1].endswith("Iterator>::next")) or (z[0] == "param" and z[1] >= 2)):
+            good("%s[ch] = %s(ch, ..): one insert per listed entry, keyed by the property's own character" % (static.split("::")[-1], owner), q)
+        else:
+            bad(static.split("::")[-1], q, "entries are inserted as (`%s`, `%s`): key and the property's character differ or the property is not built by %s" % (expr_str(key)[:60], expr_str(val)[:80], owner))
     return ok_all
